@@ -411,6 +411,7 @@ func init() {
 		Build: func(w *World) {
 			pr := BuildProto(w, ProtoOpt{Peers: 2 + w.T.Choose(2, "peers"), MinServers: 2, SecondEntity: w.T.Bool(1, 2, "two-entities"),
 				ServerTypes: []model.FeatureTypeType{model.FeatureTypeTypeLoadControl, model.FeatureTypeTypeDeviceConfiguration, model.FeatureTypeTypeSetpoint, model.FeatureTypeTypeMeasurement}})
+			pr.L.QuiesceOwnTraffic = true
 			a := &actor{w: w, pr: pr, binds: &regScript{w: w, pr: pr, kind: "bind"}, subs: &regScript{w: w, pr: pr, kind: "sub"}}
 			d := &c03Data{a: a, ev: w.CollectEvents()}
 			w.EnableFaults("conn.drop", "peer.entity_remove", "net.dup")
